@@ -1,5 +1,6 @@
 """C03 — KEK derivation agrees on both sides and with an independent implementation."""
 from __future__ import annotations
+import struct
 import base64, json, os, uuid
 import prelude, gen, toycrypto, refimpl
 from check import canon_exc, hx
@@ -149,6 +150,35 @@ def run(ctx):
                 if not (kek == kek_r == indep):
                     ctx.violation("KEK disagreement with real crypto", {"mode": mode, "hash": hn, "draw": hx(draw), "l2": hx(l2), "secret_parameters": hx(sp)[:80], "private_key_length": plen},
                                   f"sender={hx(kek)} receiver={hx(kek_r)}", f"independent={hx(indep)}")
+    # ---- (b') ECDH ephemeral keys whose public point has special leading octets (0x00, 0x04 = the X9.62 prefix, 0xFF) in X or Y:
+    #      small scalars found once by walking multiples of the generator; the stored point must be exactly (X, Y) at full width
+    special = {"ECDH_P256": {"y00": 43, "x04": 106, "xff": 172, "y04": 349, "x00": 379, "x0404": 41132},
+               "ECDH_P384": {"y04": 89, "y00": 176, "x00": 197, "x04": 253, "xff": 627, "x0404": 83620}}
+    for sa, table in special.items():
+        cv, magic, _ = refimpl.CURVES[sa]
+        for hn in (HASHES if ctx.thorough else HASHES[:2]):
+            for label, e in table.items():
+                l2 = gen.rand_bytes(rng, 64)
+                plen = 256 if sa == "ECDH_P256" else 384
+                seed_env = gen.make_env(kdf_parameters=gen.kdf_params(hn), l2_key=l2, l1_key=b"", secret_algorithm=sa, secret_parameters=b"", private_key_length=plen)
+                pub = refimpl.group_public_key(hn.lower(), l2, sa, b"", plen)
+                env_s = gen.make_env(kdf_parameters=seed_env.kdf_parameters, l2_key=pub, l1_key=b"", flags=1, secret_algorithm=sa, secret_parameters=b"", private_key_length=plen)
+                draw = e.to_bytes(plen // 8, "big")
+                with toycrypto.recording(rng_script=lambda n, draw=draw: draw[-n:].rjust(n, b"\x00")):
+                    try:
+                        kek, kid = env_s.new_kek()
+                        kek_r = seed_env.get_kek(kid)
+                        out = (hx(kek), hx(kek_r))
+                    except Exception as ex:  # noqa
+                        kid, out = None, "raised " + canon_exc(ex)
+                X, Y = cv.mul(e, cv.g)
+                want_info = magic + struct.pack("<I", cv.size) + X.to_bytes(cv.size, "big") + Y.to_bytes(cv.size, "big")
+                indep = refimpl.kek_public(hn.lower(), sa, draw, env_s.l2_key)
+                ctx.count("real:ec_special_point:" + label)
+                if kid is None or kid.key_info != want_info or out != (hx(indep), hx(indep)):
+                    ctx.violation("ECDH: the stored ephemeral point / the two KEKs are wrong for a point with special leading octets",
+                                  {"mode": sa, "hash": hn, "point": label, "ephemeral_scalar": e}, str(out)[:120] + (" key_info " + hx(kid.key_info)[:40] if kid else ""),
+                                  "both = " + hx(indep) + " key_info " + hx(want_info)[:40])
     ctx.count("real:cases", n_real)
     ctx.count("real:leading_zero_cases", lead_real)
 
